@@ -4,7 +4,7 @@
     ReadGroup}; coordinator/meta_executor.go: what the client does with a reply;
     query/iterator.gen.go + point.gen.go: *ReaderIterator.Next on a frame stream that ends at EOF).
    Definitions only; proofs live in Proofs.v. *)
-From Coq Require Export List NArith Bool Arith Lia.
+From Coq Require Export List NArith ZArith Bool Arith Lia.
 Export ListNotations.
 Open Scope N_scope.
 
@@ -358,3 +358,28 @@ Definition model_mrun (fixed : bool) (local : N) (choice : nat -> nat -> shard -
            (srcs : list N) (ops : list (N * op)) : mstate * list (qres * list key) :=
   let st := map_sources local choice view O (mkM [] []) srcs in
   (st, run_mops fixed beh data st [] ops).
+
+(* ====================================================================================
+   Which shard groups a query reads: services/meta/data.go Data.ShardGroupsByTimeRange
+   (the Client method is the same loop) with ShardGroupInfo.Overlaps / Deleted.
+   Times are nanosecond timestamps.
+   ==================================================================================== *)
+Open Scope Z_scope.
+
+(* meta.ShardGroupInfo: [StartTime, EndTime), TruncatedAt (None = not truncated), deleted *)
+Record sgroup := mkSG { sg_start : Z; sg_end : Z; sg_trunc : option Z; sg_deleted : bool;
+                        sg_shards : list shard }.
+
+(* Overlaps(min, max) = !StartTime.After(max) && EndTime.After(min): the NOMINAL range also
+   for a truncated group (it keeps the points written before the truncation, whatever
+   their timestamp) *)
+Definition overlaps (g : sgroup) (tmin tmax : Z) : bool := (sg_start g <=? tmax) && (tmin <? sg_end g).
+
+(* for _, g := range rpi.ShardGroups { if g.Deleted() || !g.Overlaps(tmin, tmax) { continue } ... } *)
+Definition groups_overlapping (tmin tmax : Z) (gs : list sgroup) : list sgroup :=
+  filter (fun g => negb (sg_deleted g) && overlaps g tmin tmax) gs.
+
+(* the shard list mapShards walks: for _, g := range groups { for _, si := range g.Shards *)
+Definition view_of_groups (tmin tmax : Z) (gs : list sgroup) : list shard :=
+  flat_map sg_shards (groups_overlapping tmin tmax gs).
+Close Scope Z_scope.
